@@ -122,3 +122,107 @@ def show(cps, limit=60):
 
 def cp_name(cp):
     return "U+%04X" % cp
+
+
+# ---------------------------------------------------------------------------
+# One-off generator of the data blocks pasted into spec/MC_Codec.tla (token tables as code point
+# tuples) and spec/Codec.tla (digest known-answer table, computed ONCE with hashlib and frozen):
+#   python3 lib/c20_util.py json | yaml | digests
+import hashlib
+import sys
+
+def _gen_tup(s):
+    return "<<" + ", ".join(str(ord(ch)) for ch in s) + ">>"
+
+def _gen_show(s):
+    return "".join(ch if 0x20 < ord(ch) < 0x7f else ("\\u%04x" % ord(ch) if ord(ch) < 0x10000 else "\\U%08x" % ord(ch)) if ch != " " else "␣" for ch in s)
+
+JTOK = [
+ ("LB", "{"), ("RB", "}"), ("LS", "["), ("RS", "]"), ("CL", ":"), ("CM", ","),
+ ("SP", " "), ("TAB", "\t"), ("LF", "\n"), ("CR", "\r"), ("FF", "\x0c"), ("NBSP", " "), ("BOM", "﻿"),
+ ("KA", '"a"'), ("KB", '"b"'), ("KAU", '"\\u0061"'), ("KE", '""'),
+ ("N0", "0"), ("N1", "1"), ("NM15", "-1.5e1"), ("NM0", "-0"), ("NE", "1E+1"), ("NH", "0.5"), ("NT", "1e-1"), ("N10", "10"),
+ ("TT", "true"), ("FF_", "false"), ("NL", "null"),
+ ("SESC", '"a\\n\\"\\\\\\/\\b\\f\\r\\t\\u00e9é\U0001d11e"'),
+ # invalid / unusual tokens used by mutations
+ ("X01", "01"), ("XMINUS", "-"), ("XPLUS1", "+1"), ("X1DOT", "1."), ("XDOT1", ".1"), ("X1E", "1e"), ("X0X1", "0x1"),
+ ("XBIG", "1e400"), ("XLONG", "123456789012345678901234567890"),
+ ("XTRUE", "True"), ("XNUL", "nul"), ("XNAN", "NaN"), ("XINF", "-Infinity"), ("XSQ", "'a'"),
+ ("XQ", '"'), ("XBS", "\\"), ("XESC", '"\\x"'), ("XLONE", '"\\ud800"'), ("XLOW", '"\\udc00"'), ("XPAIR", '"\\ud834\\udd1e"'),
+ ("XREV", '"\\udd1e\\ud834"'), ("XU2", '"\\u12"'), ("XUG", '"\\u00gg"'),
+ ("XCTL", '"\x1f"'), ("XNLS", '"\n"'), ("XDEL", '"\x7f"'), ("XC1", '"\u0085"'), ("XLS", '" "'), ("XNUL0", '"\x00"'),
+ ("XFFFF", '"￿"'), ("XCOM", "/**/"), ("XLC", "//"), ("XHASH", "#"), ("XA", "a"),
+]
+
+YTOK = [
+ ("Y_A", "a"), ("Y_COL", ": "), ("Y_DASH", "- "), ("Y_NL", "\n"), ("Y_IND", "  "), ("Y_ANCH", "&x "), ("Y_ALIAS", "*x"),
+ ("Y_TSTR", "!!str "), ("Y_TLOC", "!t "), ("Y_DOC", "---\n"), ("Y_END", "...\n"), ("Y_LS", "["), ("Y_RS", "]"),
+ ("Y_LB", "{"), ("Y_RB", "}"), ("Y_CM", ","), ("Y_DQ", '"'), ("Y_SQ", "'"), ("Y_LIT", "|\n"), ("Y_FOLD", ">-\n"),
+ ("Y_Q", "? "), ("Y_HASH", " #"), ("Y_MERGE", "<<"), ("Y_HEX", "0x1f"), ("Y_TILDE", "~"), ("Y_DIR", "%YAML 1.2\n"),
+ ("Y_TAB", "\t"), ("Y_E", "é"),
+]
+
+def _gen_tokens(name, toks):
+    print(f"\\* ---- generated by lib/c20_util.py ({name}) ----")
+    for n, s in toks:
+        print(f"{n} == {_gen_tup(s)}    \\* {_gen_show(s)}")
+    print(f"{name} == <<" + ", ".join(n for n, _ in toks) + ">>")
+
+def _gen_digests():
+    rows = []
+    def add(label, s, src):
+        rows.append((label, s, src))
+    add("empty", "", "RFC 1321 A.5 / FIPS 180-4 / FIPS 202")
+    add("a", "a", "RFC 1321 A.5")
+    add("abc", "abc", "RFC 1321 A.5 / FIPS 180-4 / FIPS 202")
+    add("message digest", "message digest", "RFC 1321 A.5")
+    add("a..z", "abcdefghijklmnopqrstuvwxyz", "RFC 1321 A.5")
+    add("A..Za..z0..9", "ABCDEFGHIJKLMNOPQRSTUVWXYZabcdefghijklmnopqrstuvwxyz0123456789", "RFC 1321 A.5")
+    add("8 x 1234567890", "1234567890" * 8, "RFC 1321 A.5")
+    add("448 bits", "abcdbcdecdefdefgefghfghighijhijkijkljklmklmnlmnomnopnopq", "FIPS 180-4 / FIPS 202 example")
+    add("896 bits", "abcdefghbcdefghicdefghijdefghijkefghijklfghijklmghijklmnhijklmnoijklmnopjklmnopqklmnopqrlmnopqrsmnopqrstnopqrstu", "FIPS 180-4 / FIPS 202 example")
+    for n in (55, 56, 57, 63, 64, 65, 71, 72, 73, 111, 112, 113, 119, 120, 127, 128, 129, 143, 144, 145, 1000):
+        add(f"{n} x a", "a" * n, "block/padding boundary; frozen from an independent implementation")
+    add("e-acute", "é", "non-ASCII; frozen")
+    add("nul", "\x00", "frozen")
+    add("controls/Latin-1", "\x00\x01\x7f\u0080ÿ", "frozen")
+    add("mixed planes", "aé€\U0001d11e", "1-4 byte characters; frozen")
+    add("U+FFFF U+10FFFF", "￿\U0010ffff", "frozen")
+    add("greek", "κόσμε", "frozen")
+    add("27 x e-acute", "é" * 27 + "a", "55 bytes of UTF-8 (MD5/SHA padding boundary); frozen")
+    add("32 x e-acute", "é" * 32, "64 bytes of UTF-8; frozen")
+    add("18 x g-clef", "\U0001d11e" * 18, "72 bytes of UTF-8 (SHA3-512 rate); frozen")
+    print("\\* ---- generated by lib/c20_util.py (digests) ----")
+    print("DigestTable == <<")
+    out = []
+    for label, s, src in rows:
+        b = s.encode("utf-8")
+        if len(set(s)) == 1 and len(s) > 8:
+            inp = f"Rep({ord(s[0])}, {len(s)})"
+        elif len(s) > 8 and s == s[:10] * 8:
+            inp = "Cat([i \\in 1..8 |-> " + _gen_tup(s[:10]) + "])"
+        elif len(set(s[:-1])) == 1 and len(s) > 8:
+            inp = f"Rep({ord(s[0])}, {len(s)-1}) \\o {_gen_tup(s[-1])}"
+        else:
+            inp = _gen_tup(s)
+        out.append(
+            f"  \\* {label} ({src})\n"
+            f"  [in |-> {inp}, nbytes |-> {len(b)},\n"
+            f"   md5 |-> \"{hashlib.md5(b).hexdigest()}\",\n"
+            f"   sha1 |-> \"{hashlib.sha1(b).hexdigest()}\",\n"
+            f"   sha256 |-> \"{hashlib.sha256(b).hexdigest()}\",\n"
+            f"   sha512 |-> \"{hashlib.sha512(b).hexdigest()}\",\n"
+            f"   sha3 |-> \"{hashlib.sha3_512(b).hexdigest()}\"]")
+    print(",\n".join(out))
+    print(">>")
+
+
+
+if __name__ == "__main__":
+    what = sys.argv[1]
+    if what == "json":
+        _gen_tokens("JTok", JTOK)
+    elif what == "yaml":
+        _gen_tokens("YTok", YTOK)
+    else:
+        _gen_digests()
